@@ -262,7 +262,7 @@ func workTrace(prop, tier string, seed uint64, worker int, budget float64, maxRu
 
 // execTraceMode re-executes a history for replay/minimisation of C12/C20.
 func execTraceMode(prop string, cfg sim.Config, ops []sim.Op) []sim.Violation {
-	reps, procs := 24, 3
+	reps, procs := 64, 6
 	if prop == "C20" {
 		reps, procs = 0, 0
 	}
